@@ -87,8 +87,18 @@ def documented_digest(tree, patterns, follow=False):
     return hashlib.sha256(text).hexdigest(), ref[1]
 
 
-def one_case(rng, res, degenerate=None):
+# lists whose ORDER (and repetitions) matter: a later pattern overrides an earlier one
+ORDERED_PATTERNS = [["*.txt", "!bar.txt"], ["!bar.txt", "*.txt"], ["*.txt", "!bar.txt", "*.txt"], ["*.c", "*.txt", "!/sub/bar.txt"],
+                    ["bar.*", "!bar.txt", "keep.log"], ["*.log", "!keep.log"], ["!keep.log", "*.log"]]
+
+
+def one_case(rng, res, degenerate=None, ordered=None):
     tree = gen_dir_tree(rng)
+    if ordered is not None:
+        tree["bar.txt"] = ("f", b"bar %d\n" % rng.randrange(99)); tree["keep.log"] = ("f", b"keep\n"); tree["x.log"] = ("f", b"x\n")
+        if tree.get("sub", ("f",))[0] != "d":
+            tree["sub"] = ("d", {})
+        tree["sub"][1]["bar.txt"] = ("f", b"sub bar\n"); tree["sub"][1]["keep.log"] = ("f", b"k2\n")
     if degenerate == "empty":
         tree = {}
     elif degenerate == "empty_subdirs":
@@ -99,6 +109,8 @@ def one_case(rng, res, degenerate=None):
     # ones that match a component of the directory's own location tell "relative to the directory" from anything else
     patterns = rng.choice([[], [], [], ["*.pyc"], ["sub"], ["*.txt"], ["sub/deep"], ["/a"], ["/bar.txt", "/lib"], ["deep/*"],
                            ["build"], ["loc*"], ["lib/**/x y"], ["build/"], ["sub/"], ["**/cache/"]])
+    if ordered is not None:
+        patterns = list(ORDERED_PATTERNS[ordered % len(ORDERED_PATTERNS)])
     if degenerate == "all_excluded":
         patterns = ["*.pyc"]
     elif degenerate:
@@ -354,6 +366,7 @@ def shard(seed, idx, n, tier):
     c10.unreadable_case(rng, res, scheme="dir:")      # a contained file that cannot be read: no digest without it
     for _ in range(n):
         one_case(rng, res)
+    one_case(rng, res, ordered=idx)          # (every order-sensitive list in every run)
     if idx < 3:
         # a directory without a single recorded file (empty, only empty sub-directories, everything excluded): the
         # digest of zero lines; adding a file changes it
